@@ -12,5 +12,5 @@ if s.count(o)<1: print("pattern not found"); sys.exit(2)
 s=s.replace(o,n,1); open(p,'w').write(s)
 P
 export GOFLAGS=-mod=mod GOPROXY=off GOSUMDB=off GOTOOLCHAIN=local
-(cd "$d" && go build ./... ) || { echo "MUTANT DOES NOT COMPILE"; exit 3; }
+(cd "$d" && go build -trimpath ./... ) || { echo "MUTANT DOES NOT COMPILE"; exit 3; }
 /verif/bin/govc check -repo "$d" -prop "$props" -no-evidence -scratch "$d/.scratch" "$@"
